@@ -790,6 +790,20 @@ func (e *vsEnv) checkList(terms []vsTerm, limit int, extra []string) {
 // battery runs n drawn queries/listings at a quiescent point.
 func (e *vsEnv) battery(n int) {
 	T := e.T
+	if T.Intn(6, "look-alike-queries") == 0 {
+		// two queries whose words read alike once quoting is gone: two terms, and one term whose value holds a
+		// blank and what looks like a second term. Each means what it says whichever the server saw first.
+		two := []vsTerm{{"goos", ':', "linux"}, {"goarch", ':', "amd64"}}
+		one := []vsTerm{{"goos", ':', "linux goarch:amd64"}}
+		if T.Bool("look-alike-order") {
+			two, one = one, two
+		}
+		e.checkQuery(two, "")
+		e.checkQuery(one, "")
+		e.checkList(two, 0, nil)
+		e.checkList(one, 0, nil)
+		e.r.Hit("look-alike queries issued back to back")
+	}
 	for i := 0; i < n; i++ {
 		terms := vsGenTerms(T, e.model, false)
 		switch T.Intn(4, "battery-kind") {
